@@ -268,6 +268,37 @@ Qed.
 Lemma w_height_nn h s : nn s -> nn (w_height h s).
 Proof. unfold nn. simpl. auto. Qed.
 
+(* ---------- non-negativity ---------- *)
+Lemma record_step_nn s sk pend rk s2 p' : 0 < pend -> nn s -> nst_record_step s sk pend rk = Some (s2, p') -> nn s2.
+Proof.
+  intros Hp N H. apply record_step_shape in H. destruct H as (r & s1 & G & _ & H). simpl in H. destruct H as (U & ->).
+  pose proof N as (_ & _ & _ & _ & Nu & _). pose proof (allv_sget _ _ _ _ Nu G) as Nr.
+  unfold ur_nn in Nr. rewrite andb_true_iff, !Z.leb_le in Nr.
+  pose proof (upd_sa_nn _ _ _ _ _ _ N U) as N1. apply log_ev_nn.
+  destruct N1 as (A & B & C & D & E & F). unfold nn. simpl. repeat split; try assumption.
+  apply allv_sset; [assumption|]. unfold ur_nn, with_act. simpl. rewrite andb_true_iff, !Z.leb_le.
+  destruct Nr as [Na Nb]. destruct (0 <? pend - ur_act r) eqn:Eq; [split; lia|]. apply Z.ltb_ge in Eq. split; lia.
+Qed.
+
+Lemma share_step_nn s st a prop k row s' : nn s -> nst_share_step s st a prop k row = Some s' -> nn s'.
+Proof.
+  intros N H. apply share_step_shape in H. destruct H as (o & sh & tok & s1 & s2 & z & s3 & s4 & H). simpl in H.
+  destruct H as (_ & _ & _ & _ & U1 & U2 & U3 & U4 & ->). apply log_ev_nn.
+  eapply upd_sa_nn; [|exact U4].
+  assert (nn s2) as N2 by (eapply upd_dg_nn; [|exact U2]; eapply upd_oa_nn; eauto).
+  destruct z; [eapply delete_staker_nn; eauto | inversion U3; subst; exact N2].
+Qed.
+
+Lemma nst_balance_nn s st a x s' : nn s -> nst_balance s st a x = Some s' -> nn s'.
+Proof.
+  intros N H. apply (nst_balance_P nn s st a x s' N); try exact H.
+  - intros s1 _ U. apply log_ev_nn. eapply upd_sa_nn; eauto.
+  - intros info f s1 _ _ _ U. apply log_ev_nn. eapply upd_sa_nn; eauto.
+  - intros s0 pend rk s2 p' Hp N0 E. eapply record_step_nn; eauto.
+  - intros prop s0 k row s2 N0 E. eapply share_step_nn; eauto.
+Qed.
+
+
 Lemma step_nn s o : idx_inv s -> nn s -> wf_op o = true -> nn (fst (step s o)).
 Proof.
   intros I N Wf. destruct o; simpl.
@@ -283,7 +314,7 @@ Proof.
   - apply hold_dec_nn; assumption.
   - destruct (end_block_idx nn (fun s0 r _ G N0 => process_nn s0 r N0 G) (fun s0 h N0 => w_height_nn h s0 N0) s I N) as (_ & Q & _).
     exact Q.
-  - discriminate.
+  - destruct (nst_balance s staker asset x) as [s'|] eqn:E; simpl; [|exact N]. eapply nst_balance_nn; eauto.
 Qed.
 
 Lemma run_nn ops : forall s, idx_inv s -> nn s -> hist_ok s ops = true -> nn (run ops s).
